@@ -427,11 +427,7 @@ theorem plm_inv (g90e : Bool) (inch : α) (cfg : Config) (s : FState α) (phys :
             simp only
             split
             · subst hpre
-              simp only [List.dropLast_concat, List.getLast?_append, List.getLast?_singleton,
-                Option.some_or]
-              have : pre ++ [Out.g92e (n2lAbs s3.position.e (cur s.position.e))] ++ [Out.orig cmd] =
-                  (pre ++ [Out.g92e (n2lAbs s3.position.e (cur s.position.e))]) ++ [Out.orig cmd] := by simp
-              rw [this]
+              rw [insertBeforeLast_snoc]
               apply key s3 _ hpos3 he3 hc3
               intro o ho
               rcases List.mem_append.mp ho with ho | ho
